@@ -1214,10 +1214,12 @@ func c07Check(p *core.Pkg, atoms []*core.Atom, fid *c07FaultID) (string, string,
 func c07Pkgs(c *core.Ctx) []*core.Pkg {
 	var out []*core.Pkg
 	if c.Thorough() {
-		out = append(out, core.Packages()...)
+		out = append(out, core.PackagesWithRev()...)
 	} else {
-		for _, n := range []string{"vtus", "vtuw", "vocus", "voccs"} {
-			if p := core.PkgByName(n); p != nil {
+		// vtrs: second revision of vt (typedef mixed restricted differently, enums numbered differently) validated in
+		// the same process as vtus: anything remembered per type NAME goes wrong for one of the two
+		for _, n := range []string{"vtus", "vtuw", "vocus", "voccs", "vtrs"} {
+			if p := core.AnyPkgByName(n); p != nil {
 				out = append(out, p)
 			}
 		}
